@@ -90,6 +90,9 @@ type Ctx struct {
 	inQuant   int             // > 0 while translating the body of a quantifier
 	preOnce   sync.Once
 	preText   string
+	symMu     sync.Mutex
+	symCache  []assertInfo
+	nEntry    int
 }
 
 type structInfo struct {
